@@ -984,7 +984,8 @@ def run_flow_phase(ctx, spec, root, helper, ca, phase, doc, replay_obj):
     def npost():
         return sum(1 for r in flow.read_log(log) if r.get("kind") == "hook" and rec_event_key(r, accounts_dir)[0] == "post-operation")
 
-    flow.wait_for(lambda: npost() >= n_post_expected or not d.alive(), 25)
+    flow.wait_progress(lambda: npost() >= n_post_expected or not d.alive(),
+                       lambda: len(ca.log) + (os.path.getsize(log) if os.path.exists(log) else 0), idle=25, cap=300)
     time.sleep(0.1)
     rc = d.stop()
     records = [r for r in flow.read_log(log) if r.get("kind") == "hook"]
